@@ -44,7 +44,7 @@ META = dict(
               '; colour-channel selection (planes and labels derived from one request'
               '); canonical-form equality of the TIFF restore step with the scale-fre'
               'e inverse of the export stretch'
-              '; package-wide provenance scan of dimension-naming arguments (with a positive fixture); handler coverage of every yaml parse of the TIFF description; writer/reader agreement on the HDF5 file name; order of default-name store and attribute packing in the TIFF writer',
+              '; package-wide provenance scan of dimension-naming arguments (with a positive fixture); handler coverage of every yaml parse of the TIFF description; writer/reader agreement on the HDF5 file name; order of default-name store and attribute packing in the TIFF writer; effect analysis of the save / load / edit entry points against module- and class-level storage (shallow copies share their elements)',
     level_text='Static: U1-U4 hold for all images/metadata (they are about which keys '
                'are written under which guard, which object is stored into, and the '
                'algebra of the running mean/variance).  Byte-level HDF5/TIFF '
